@@ -57,6 +57,11 @@ CHECKS["C18"] = dict(cat="exploration", engine="wire",
    text="(A) 8-24 goroutines share one client and issue Get (uuid/index), List, Where/WhereAll/WhereCache List, cache Rows/Row/RowByModel/RowsByCondition/Index, Transact, Create+Transact, Monitor (one table each), Monitor of an unknown table, MonitorCancel, Echo, Disconnect, Connect, Connected/Schema/CurrentEndpoint, UpdateEndpoints, SetOption in PRNG order with per-call context deadlines, while a direct writer rewrites rows version by version (a, b, c, d always of one version), the proxy cuts the connection 2-5 times and pause points delay monitor set-up and update handling. Oracles: no race report with a libovsdb frame; every model returned by any read path or handed to an event handler is version-uniform; every call returns (still pending 60 s after all load stopped = blocked for ever); afterwards the cache converges to the database and Close returns. (B) 48 error paths (Monitor: unknown table, no tables, foreign field, unsupported method, not connected, cancelled context, silent server, same monitor twice, cut during set-up; Transact: unknown column/table, not connected, context expiry, constraint violation, no operations, cut in flight; Get/List/Where/Create misuse and not connected; MonitorCancel refused/unknown/not connected; Echo refused/silent/not connected; Connect: no endpoint, schema mismatch, cancelled, refused, cut during handshake, already connected; Disconnect/Close/SetOption variants) each followed by Echo, Get, List, Transact, Monitor, Disconnect, Connect, Echo, MonitorAll, Transact, Close: each must return within 45 s with nothing else running. Held = on the schedules the runs produced.",
    note="Schedules are sampled; the evidence lists call/outcome counts, connection cuts, pause-point delays. The leader-change watcher is not exercised (needs a _Server database).", ref="4/C18")
 
+CHECKS["C20"] = dict(cat="exploration", engine="gen",
+   technique="generate-compile-run monitor: the generator of the tree is run (library API and cmd/modelgen binary, twice each), the output is built in a scratch module and a driver program compiled with it validates every generated model and checks the copy/equality laws against reflect.DeepEqual, model.Clone and model.Equal",
+   text="Generated schemas over the whole type space (scalars, optionals, sets, bounded sets, maps incl. real/boolean keys, references, enum columns of strings, integers and reals as scalar/optional/set, names with underscores, initialisms, mixed case, doubled/trailing underscores) x {extended on/off} x {enum types on/off}. Per configuration: generation must succeed and be byte-identical across two in-process runs and two runs of the binary (and between both); all packages of a batch are built with a driver; NewDatabaseModel(Schema(), FullDatabaseModel()) must report no error; every field's underlying type must equal the native type computed independently from the schema; for extended models, over 40 generated values per table: DeepCopy is DeepEqual, Equals, model.Equal to its source, model.Clone agrees, scribbling over every slice element, spare capacity, map entry and pointer target of a copy leaves the source intact, and for every field and every perturbation (nil vs empty, one element/value changed, reordered, one more zero element, same-size maps with another key holding the zero value) Equals (both directions) and model.Equal agree with reflect.DeepEqual. A generator error, compile error, validation error or law failure is a violation carrying the schema.",
+   note="Name collisions after mangling (two columns with one Go field name, a column called uuid) are outside the generated space. Needs the go tool at check time; the scratch module lives under the run's temporary directory.", ref="4/C20")
+
 CHECKS["C09"] = dict(cat="exploration", engine="codec",
    technique="round-trip identity monitor + independent RFC 7047 encoder + wrong-type probes",
    text="Generated schemas over the whole type space (incl. real/boolean map keys, bounded sets, enums, references, scalar uuids) and generated rows (empty/singleton/multi collections, nil/non-nil optionals, zero values, integers at 0, +-1, +-2^31, +-2^53(+1), +-2^62, min/max int64): model -> NewRow -> JSON -> Row.UnmarshalJSON -> GetRowData/CreateModel must give back every field (sets as sets); each column's wire form is compared with an independent RFC encoder; absent columns must leave pre-filled fields untouched; values of the wrong Go type (22 candidates per column) and ill-typed wire values must be rejected by NativeToOvs / SetField / OvsToNative. One known finding (integers beyond 2^53).",
